@@ -11,27 +11,27 @@ tvars == <<vars, l, hi>>
 Ev == Trace[l]
 TInit == Init /\ l = 1 /\ hi = 0 /\ TLCSet(7, 0)
 Reset == /\ now' = 0 /\ pseq' = 0 /\ pcont' = 0 /\ syncs' = {} /\ fetches' = {} /\ datas' = {}
-         /\ cur' = 0 /\ gens' = 0 /\ aseq' = 0 /\ objadv' = <<>> /\ parked' = <<>> /\ applied' = 0 /\ seen' = 0 /\ pend' = <<>> /\ fq' = {}
+         /\ cur' = 0 /\ gens' = 0 /\ aseq' = 0 /\ objadv' = <<>> /\ parked' = <<>> /\ applied' = 0 /\ seen' = 0 /\ pend' = <<>> /\ fq' = {} /\ nface' = 0 /\ nactive' = FALSE /\ nroutes' = {}
          /\ ev' = [kind |-> "R"]
-Stutter(k) == ev' = [kind |-> k] /\ UNCHANGED <<now, pseq, pcont, syncs, fetches, datas, cur, gens, aseq, objadv, parked, applied, seen, pend, fq>>
+Stutter(k) == ev' = [kind |-> k] /\ UNCHANGED <<now, pseq, pcont, syncs, fetches, datas, cur, gens, aseq, objadv, parked, applied, seen, pend, fq, nface, nactive, nroutes>>
 \* time: entries of the model's pending table whose Interest has certainly expired are dropped (the code drops them at
 \* expiry and retries; a retry shows up as an rfetch row of its own)
 TickT == /\ now' = now + 1 /\ ev' = [kind |-> "tick"]
          /\ pend' = [x \in { y \in DOMAIN pend : pend[y].exp + 1 >= now + 1 } |-> pend[x]]
-         /\ UNCHANGED <<pseq, pcont, syncs, fetches, datas, cur, gens, aseq, objadv, parked, applied, seen, fq>>
+         /\ UNCHANGED <<pseq, pcont, syncs, fetches, datas, cur, gens, aseq, objadv, parked, applied, seen, fq, nface, nactive, nroutes>>
 \* a fetch Interest for s left R: scheduled by a Sync Interest (fq) or a retry after a timeout
 RFetchT(s, sent) == IF s \in fq THEN RFetch(s)
                     ELSE /\ pend' = (IF sent THEN AddPend(s) ELSE pend)
                          /\ fetches' = (IF sent THEN fetches \cup {s} ELSE fetches)
                          /\ ev' = [kind |-> "rfetch", s |-> s, sent |-> sent, retry |-> TRUE]
-                         /\ UNCHANGED <<now, pseq, pcont, syncs, datas, cur, gens, aseq, objadv, parked, applied, seen, fq>>
+                         /\ UNCHANGED <<now, pseq, pcont, syncs, datas, cur, gens, aseq, objadv, parked, applied, seen, fq, nface, nactive, nroutes>>
 Step ==
   /\ l <= Len(Trace) /\ l' = l + 1 /\ hi' = l
   /\ \/ Ev.ev = "Reset" /\ Reset
      \/ Ev.ev = "pchange" /\ PChange
      \/ Ev.ev = "pbeat" /\ (IF pseq > 0 THEN PBeat ELSE Stutter("pbeat"))
      \/ Ev.ev = "preply" /\ (IF Ev.s \in fetches THEN PReply(Ev.s) ELSE Stutter("preply"))
-     \/ Ev.ev = "rsync" /\ RSync(Ev.s)
+     \/ Ev.ev = "rsync" /\ RSync(Ev.s, Ev.face, Ev.active)
      \/ Ev.ev = "rfetch" /\ RFetchT(Ev.s, Ev.sent)
      \/ Ev.ev = "rdata" /\ RDataO(Ev.s, Ev.c, Ev.n, FALSE)
      \/ Ev.ev = "rrib" /\ (IF Ev.g \in DOMAIN parked /\ parked[Ev.g] > 0 THEN RRib(Ev.g) ELSE Stutter("rrib?"))
@@ -52,6 +52,11 @@ T_C18a_state == [][Live => /\ Ev.obs.nbr = (cur' # 0)
                            /\ (cur' # 0 => (Ev.obs.aseq = aseq' /\ Ev.obs.advc = objadv'[cur']))
                            /\ Ev.obs.applied = applied'
                            /\ Ev.obs.parked = (IF DOMAIN parked' = {} THEN 0 ELSE LET RECURSIVE Sum(_) Sum(S) == IF S = {} THEN 0 ELSE LET g == CHOOSE x \in S : TRUE IN parked'[g] + Sum(S \ {g}) IN Sum(DOMAIN parked'))]_tvars
+\* the neighbour's routes in the forwarder (the register / unregister commands of R replayed by the harness): all three on the
+\* face the module says, none once the neighbour is gone
+T_C18a_routes == [][Live => { <<Ev.obs.nroutes[k][1], Ev.obs.nroutes[k][2]>> : k \in 1..Len(Ev.obs.nroutes) }
+                            = (IF cur' # 0 /\ nface' # 0 THEN { <<"adv", nface'>>, <<"sync", nface'>>, <<"pfx", nface'>> } ELSE {})]_tvars
+I_C18a_routes == RoutesFollowFace
 \* P's side as the harness sees it: the number announced and the content published
 T_C18a_pub == [][(Is("pchange") \/ Is("pbeat")) => (Ev.pseq = pseq' /\ Ev.pcont = pcont')]_tvars
 \* a fetch leaves exactly when the number is still the one known; Data is accepted only for a pending fetch of the
